@@ -17,6 +17,8 @@ func init() {
 		ruleP3(c, "C13.P3")
 		ruleP4(c, "C13.P4")
 		ruleP5(c, "C13.P5")
+		ruleL2f(c, "C13.P6", func(e string) bool { return strings.Contains(e, "READDIR") }, 4)
+		ruleKind(c, "C13.P7")
 	}
 }
 
